@@ -110,6 +110,47 @@ def _validate_translation(ctx, fn, lang, rng):
         raise core.CheckerBug('relang translation of %s disagrees with the real function on %r' % (fn, bad[:5]))
 
 
+WITNESS = r"""
+import sys, json, os, re, itertools, importlib.util
+repo = os.environ['VERIF_REPO']
+import types
+pkg = types.ModuleType('auth'); pkg.__path__ = [os.path.join(repo, 'auth/auth')]; sys.modules['auth'] = pkg
+class _E(Exception):
+    def __init__(self, *a, **k): Exception.__init__(self, *a)
+exc = types.ModuleType('auth.exceptions')
+exc.__getattr__ = lambda n: _E
+sys.modules['auth.exceptions'] = exc
+spec = importlib.util.spec_from_file_location('auth.auth_utils', os.path.join(repo, 'auth/auth/auth_utils.py'))
+m = importlib.util.module_from_spec(spec); sys.modules['auth.auth_utils'] = m; spec.loader.exec_module(m)
+U = re.compile(r'[a-z0-9]+(-[a-z0-9]+)*')
+S = re.compile(r'[a-z0-9]+([.-][a-z0-9]+)*')
+alpha = ['a', 'z', '0', '9', '-', '.', 'A', '_', ' ', '\n', '\r', '\t', '\x00', '\x85', ' ', 'é', 'ß', '²', '٣', 'ａ', '\U0001d7d8']
+cands = ['']
+for n in (1, 2, 3):
+    cands += [''.join(t) for t in itertools.product(alpha, repeat=n)]
+cands += [p + c + q for c in alpha for p in ('ab', 'a-b', 'a.b') for q in ('', 'c', '-c')]
+res = {'confirmed': False, 'cases': len(cands)}
+for s_ in cands:
+    want_u, want_s = bool(U.fullmatch(s_)), bool(S.fullmatch(s_))
+    try:
+        got_u = bool(m.is_valid_username(s_))
+    except Exception as e:
+        got_u = 'raises %r' % e
+    try:
+        m.validate_credentials_secret_name_input(s_); got_s = True
+    except Exception:
+        got_s = False
+    if got_u != want_u or got_s != want_s:
+        res = {'confirmed': True, 'input': s_, 'is_valid_username': got_u, 'username_grammar': want_u, 'secret_name_accepted': got_s, 'secret_name_grammar': want_s}
+        break
+print(json.dumps(res))
+"""
+
+
+def native_witness(ctx):
+    return core.run_native(WITNESS, {})
+
+
 def build(ctx):
     src = core.read_repo(PATH)
     rng = random.Random(ctx.seed)
@@ -169,6 +210,23 @@ def build(ctx):
         if any(isinstance(n, ast.Await) for n in ast.walk(st)) or isinstance(st, ast.Return):
             seen_db = True
     ctx.add(core.decided('check_valid_new_user/guard-dominates-db-access', ok, 'the raise guarded by `not is_valid_username(username)` must precede every await/return', kind='scan'))
+    # the string validated is the string stored: neither function rebinds `username` / the secret name (a local clean-up such
+    # as username = username.strip() would validate one string and let insert_new_user store another)
+    for fname in ('check_valid_new_user', 'insert_new_user'):
+        f_ = fns.get(fname)
+        rebound = []
+        if f_ is not None:
+            for n in ast.walk(f_):
+                tg = []
+                if isinstance(n, ast.Assign):
+                    tg = n.targets
+                elif isinstance(n, (ast.AugAssign, ast.AnnAssign, ast.NamedExpr)):
+                    tg = [n.target]
+                for t_ in tg:
+                    for x in ast.walk(t_):
+                        if isinstance(x, ast.Name) and x.id in ('username', 'hail_credentials_secret_name'):
+                            rebound.append('%s (line %d)' % (ast.unparse(n)[:60], n.lineno))
+        ctx.add(core.decided('%s/validated-names-are-not-rebound' % fname, f_ is not None and not rebound, repr(rebound), kind='scan'))
     # insert_new_user: the secret-name validator runs before the transaction, check_valid_new_user before the INSERT,
     # both on the very parameters that are inserted; and no other statement in auth/auth/*.py inserts into users.
     inu = fns.get('insert_new_user')
